@@ -2759,7 +2759,9 @@ class Interp:
         args: dict[str, frozenset] = {}
         if init is not None:
             for p in init.params[1:]:
-                args[p.arg] = by_annotation(p, init)
+                v = by_annotation(p, init)
+                if v is not None:  # None: leave the parameter to its default
+                    args[p.arg] = v
         return self.construct(ci.fq, [], args, node, fr)
 
     def call_method(self, obj: frozenset, name: str, args: list, label: str) -> frozenset:
